@@ -38,6 +38,18 @@ def ftok(fen):
     return fen.replace(' ', '_')
 
 
+def wf_corpus(name):
+    """corpus FENs that satisfy the model's decidable well-formedness predicate (theorems apply to those only)"""
+    fens = [ftok(f) for f in corpus(name)]
+    if not fens:
+        return []
+    ans = core.run_model(['wf %s' % f for f in fens])
+    bad = [f for f, a in zip(fens, ans) if a != '1']
+    if bad:
+        core.log('corpus %s: %d entries are not well-formed positions and are skipped: %s' % (name, len(bad), bad[:3]))
+    return [f for f, a in zip(fens, ans) if a == '1']
+
+
 def all_cases(ctx, pos, op, stream, spec=True, oracle=None):
     return [Case('%s %s' % (op, p), stream, spec=('spec:%s %s' % (op, p)) if spec else None, oracle=oracle) for p in pos]
 
@@ -181,8 +193,8 @@ def c01_cases(ctx):
         cases.append(Case('perft %s 2' % p, 'perft-2'))
     for p in pos[:ctx.scale(25, 300)]:
         cases.append(Case('perft %s 3' % p, 'perft-3'))
-    for fen in corpus('perft_roots.txt'):
-        cases.append(Case('perft %s %d' % (ftok(fen), ctx.scale(3, 4)), 'perft-roots'))
+    for f in wf_corpus('perft_roots.txt'):
+        cases.append(Case('perft %s %d' % (f, ctx.scale(3, 4)), 'perft-roots'))
     return cases
 
 
@@ -208,8 +220,8 @@ def c03_cases(ctx):
     for g in games(ctx, ctx.scale(300, 5000), 120):
         if len(g) > 1:
             cases.append(Case('line %s' % ' '.join(g), 'line-make-all-unmake-all', oracle=same_oracle))
-    for fen in corpus('clock_fens.txt'):
-        cases.append(Case('mkunmk %s' % ftok(fen), 'corpus', oracle=same_oracle))
+    for f in wf_corpus('clock_fens.txt'):
+        cases.append(Case('mkunmk %s' % f, 'corpus', oracle=same_oracle))
     return cases
 
 
@@ -281,6 +293,8 @@ def fen_expect(s):
 def mutate_fen(rng, fen):
     kind = rng.below(16)
     f = fen.split(' ')
+    if len(f) < 4:
+        kind = rng.pick([1, 2, 3, 4, 12, 13])
     if kind == 0:
         return ' '.join(f[:rng.below(6)])
     if kind == 1:
@@ -462,7 +476,7 @@ def mutate_san(rng, san):
 
 def c14_cases(ctx):
     pos = positions(ctx, ctx.scale(2500, 40000))
-    pos = pos + [ftok(f) for f in corpus('san_fens.txt')]
+    pos = pos + wf_corpus('san_fens.txt')
     cases = [Case('san %s' % p, 'san-of-every-legal-move', spec='spec:san %s' % p, oracle=san_oracle) for p in pos]
     # SAN parser on standard and perturbed strings
     sub = pos[:ctx.scale(700, 12000)]
@@ -724,12 +738,138 @@ def c17_cases(ctx):
     return cases
 
 
+# ------------------------------------------------------------------------------------------------------ C19
+
+def c19_valid_oracle(kind, doc_hex):
+    import json as _json
+    try:
+        src = _json.loads(bytes.fromhex(doc_hex).decode('utf-8'))
+    except Exception:
+        src = None
+
+    def f(a):
+        if not a.startswith('ok x:'):
+            return 'a document of a documented shape was not decoded'
+        if src is None:
+            return None
+        try:
+            got = _json.loads(bytes.fromhex(a[5:]).decode('utf-8'))
+        except Exception:
+            return 're-serialised value is not JSON'
+        st = None
+        if src.get('type') == 'gameState':
+            st, g = src, got
+        elif src.get('type') == 'gameFull':
+            st, g = src.get('state'), got.get('state')
+        if st is not None and isinstance(st, dict) and isinstance(g, dict):
+            mv = st.get('moves', '')
+            want = [] if mv.strip() == '' else mv.split(' ')
+            if g.get('moves') != want:
+                return 'move list decoded as %r, transmitted %r' % (g.get('moves'), mv)
+            for k in ('wtime', 'btime', 'winc', 'binc', 'status'):
+                if g.get(k) != st.get(k):
+                    return 'field %s decoded as %r, transmitted %r' % (k, g.get(k), st.get(k))
+        if src.get('type') == 'opponentGone':
+            if got.get('claimWinInSeconds') != src.get('claimWinInSeconds') or got.get('gone') != src.get('gone'):
+                return 'opponentGone decoded as %r, transmitted %r' % (got, src)
+        return None
+    return f
+
+
+def c19_cases(ctx):
+    cases = []
+    gen = os.path.join(core.VERIF, 'tools', 'gen_lichess_docs.py')
+    import sys as _sys
+    n = ctx.scale(5000, 200000)
+    rc, out = core.run([_sys.executable, gen, str(ctx.seed), str(n), '--mutate-percent', '0'], timeout=1800)
+    if rc != 0:
+        raise core.Broken('gen_lichess_docs', out[-2000:])
+    for l in out.split('\n'):
+        if l.startswith('json '):
+            _, kind, tok = l.split(' ')
+            cases.append(Case(l, 'documented-shape:' + kind, oracle=c19_valid_oracle(kind, tok[2:])))
+    rc, out = core.run([_sys.executable, gen, str(ctx.seed + 1), str(ctx.scale(5000, 200000)), '--mutate-percent', '60'], timeout=1800)
+    if rc != 0:
+        raise core.Broken('gen_lichess_docs', out[-2000:])
+    for l in out.split('\n'):
+        if l.startswith('json '):
+            cases.append(Case(l, 'mutated', panic_ok=True))
+    for l in corpus('json_cases.txt'):
+        cases.append(Case(l, 'corpus'))
+    return cases
+
+
+# ------------------------------------------------------------------------------------------------------ sessions (engine)
+
+def project_session(ans):
+    """drop what the properties do not speak about: poll infos, node counts, times"""
+    out = []
+    for part in ans.split(' ; '):
+        toks = []
+        for t in part.split(' '):
+            if t.startswith('I:'):
+                f = t.split(':')
+                if f[1] != '-':
+                    toks.append('D:%s:%s:%s' % (f[1], f[4], f[5]))
+            else:
+                toks.append(t)
+        out.append(' '.join(toks) if toks else '-')
+    return ' ; '.join(out)
+
+
+def flip_fen(tok):
+    f = tok.split('_')
+    rows = f[0].split('/')[::-1]
+    placement = '/'.join(r.swapcase() for r in rows)
+    side = 'b' if f[1] == 'w' else 'w'
+    rights = ''.join(c for c in 'KQkq' if c in f[2].swapcase()) or '-'
+    ep = '-' if f[3] == '-' else f[3][0] + str(9 - int(f[3][1]))
+    return '_'.join([placement, side, rights, ep, f[4], f[5]])
+
+
+def flip_uci(m):
+    fl = lambda sq: sq[0] + str(9 - int(sq[1]))
+    return fl(m[0:2]) + fl(m[2:4]) + m[4:]
+
+
+# ------------------------------------------------------------------------------------------------------ C11
+
+def c11_cases(ctx):
+    pos = positions(ctx, ctx.scale(2500, 40000))
+    cases = []
+    for p in pos:
+        cases.append(Case('eval %s' % p, 'static-eval'))
+        cases.append(Case('eval %s' % flip_fen(p), 'static-eval-of-flip'))
+    return cases
+
+
+def c11_post(ctx, cases, impl):
+    vs = []
+    by = {}
+    for c, a in zip(cases, impl):
+        if c.req.startswith('eval '):
+            by[c.req.split(' ')[1]] = a
+    n = 0
+    for p, a in by.items():
+        q = flip_fen(p)
+        if q in by and p < q:
+            n += 1
+            try:
+                if int(by[q]) != -int(a):
+                    vs.append({'kind': 'property', 'stream': 'eval-flip', 'input': 'eval %s' % p, 'impl_output': '%s vs flipped %s' % (a, by[q]),
+                               'why': 'static evaluation of the colour-flipped mirror position is not the negation'})
+            except ValueError:
+                pass
+    ctx.notes.append('flip pairs compared: %d' % n)
+    return vs
+
+
 # ------------------------------------------------------------------------------------------------------ registry
 
 PROPS = {
-    'C01': dict(modules=['Inkayaku.Props.C01'], theorems=[], cases=c01_cases, anchors=BOARD_ANCHORS),
-    'C02': dict(modules=['Inkayaku.Props.C02'], theorems=[], cases=c02_cases, anchors=BOARD_ANCHORS),
-    'C03': dict(modules=['Inkayaku.Props.C03'], theorems=[], cases=c03_cases, anchors=BOARD_ANCHORS),
+    'C01': dict(modules=[], theorems=[], cases=c01_cases, anchors=BOARD_ANCHORS),
+    'C02': dict(modules=[], theorems=[], cases=c02_cases, anchors=BOARD_ANCHORS),
+    'C03': dict(modules=['Inkayaku.Props.C03'], theorems=['Inkayaku.C03.vis_eq_iff', 'Inkayaku.C03.field_roundtrip', 'Inkayaku.C03.pack_injective', 'Inkayaku.C03.unmake_make', 'Inkayaku.C03.unmake_make_line', 'Inkayaku.C03.hash_restored', 'Inkayaku.C03.hash_restored_line', 'Inkayaku.C03.unmake_make_generated', 'Inkayaku.C03.unmake_make_generated_nq', 'Inkayaku.C03.unmake_make_generated_line'], cases=c03_cases, anchors=BOARD_ANCHORS),
     'C04': dict(modules=['Inkayaku.Props.C04'],
                 theorems=['Inkayaku.C04.rook_correct', 'Inkayaku.C04.bishop_correct', 'Inkayaku.C04.rook_correct_u64',
                           'Inkayaku.C04.bishop_correct_u64', 'Inkayaku.C04.leapers_correct', 'Inkayaku.C04.leapers_length'],
@@ -737,8 +877,8 @@ PROPS = {
                 anchors=['board/src/board/precalculated/magic.rs', 'board/src/board/precalculated/nonmagic.rs',
                          'core/src/constants/direction.rs', 'core/src/constants/square.rs'],
                 assumptions=['rustc evaluates the const tables as dumped by the same binary at run time']),
-    'C05': dict(modules=['Inkayaku.Props.C05'], theorems=[], cases=c05_cases, anchors=BOARD_ANCHORS),
-    'C06': dict(modules=['Inkayaku.Props.C06'], theorems=[], cases=c06_cases, post=c06_post, anchors=BOARD_ANCHORS),
+    'C05': dict(modules=['Inkayaku.Props.C05'], theorems=['Inkayaku.C05.square_attacked', 'Inkayaku.C05.in_check', 'Inkayaku.C05.current_in_check', 'Inkayaku.C05.valid', 'Inkayaku.C05.move_legal', 'Inkayaku.C05.wf_not_in_check', 'Inkayaku.C05.occupancy_in_check', 'Inkayaku.C05.no_moves_iff'], cases=c05_cases, anchors=BOARD_ANCHORS),
+    'C06': dict(modules=[], theorems=[], cases=c06_cases, post=c06_post, anchors=BOARD_ANCHORS),
     'C10': dict(modules=['Inkayaku.Props.C10', 'Inkayaku.Props.C10Fifty'],
                 theorems=['Inkayaku.C10.countRepetitions_value', 'Inkayaku.C10.countRepetitions_spec',
                           'Inkayaku.C10.never_reads_above_start', 'Inkayaku.C10.threefold_iff',
@@ -746,9 +886,12 @@ PROPS = {
                           'Inkayaku.C10.terminal_ignores_clock'],
                 cases=c10_history_cases,
                 anchors=['engine_core/src/engine/zobrist_history.rs', 'engine_core/src/engine/search.rs', 'engine_core/src/engine/heuristic.rs']),
-    'C12': dict(modules=['Inkayaku.Props.C12'], theorems=[], cases=c12_cases, anchors=['core/src/fen.rs', 'board/src/board.rs']),
-    'C13': dict(modules=['Inkayaku.Props.C13'], theorems=[], cases=c13_cases, anchors=BOARD_ANCHORS),
-    'C14': dict(modules=['Inkayaku.Props.C14'], theorems=[], cases=c14_cases, anchors=BOARD_ANCHORS),
+    'C11': dict(modules=['Inkayaku.Props.C11'], theorems=['Inkayaku.C11.black_tables_mirror', 'Inkayaku.C11.tables_shape', 'Inkayaku.C11.eval_flip', 'Inkayaku.C11.gameStage_flip', 'Inkayaku.C11.isCurrentInCheck_flip', 'Inkayaku.C11.evaluate_flip', 'Inkayaku.C11.evaluate_flip_wf', 'Inkayaku.C11.evaluate_flip_mover', 'Inkayaku.C11.terminal_sign', 'Inkayaku.C11.checkmate_sign', 'Inkayaku.C11.stalemate_draw', 'Inkayaku.C11.nearer_mate_better', 'Inkayaku.C11.score_mate_white', 'Inkayaku.C11.score_mate_black', 'Inkayaku.C11.score_mated_white', 'Inkayaku.C11.score_mated_black', 'Inkayaku.C11.score_cp', 'Inkayaku.C11.score_mate_leaf', 'Inkayaku.C11.score_mated_leaf', 'Inkayaku.C11.mate_score_flip'],
+                cases=c11_cases, post=c11_post,
+                anchors=['engine_core/src/engine/heuristic.rs', 'engine_core/src/engine/heuristic/simple.rs', 'engine_core/src/engine/search.rs']),
+    'C12': dict(modules=['Inkayaku.Props.C12'], theorems=['Inkayaku.C12.wf_repr', 'Inkayaku.C12.print_parse_board', 'Inkayaku.C12.print_parse_legal', 'Inkayaku.C12.decode_correct', 'Inkayaku.C12.decode_correct_four', 'Inkayaku.C12.decode_then_print', 'Inkayaku.C12.four_field_defaults', 'Inkayaku.C12.parse_print_canonical', 'Inkayaku.C12.parse_print_same', 'Inkayaku.C12.parse_print_four', 'Inkayaku.C12.reject_field_count', 'Inkayaku.C12.reject_illegal_char', 'Inkayaku.C12.reject_rank_sum', 'Inkayaku.C12.reject_adjacent_digits', 'Inkayaku.C12.reject_bad_side', 'Inkayaku.C12.reject_bad_castling', 'Inkayaku.C12.reject_bad_ep', 'Inkayaku.C12.reject_bad_clock', 'Inkayaku.C12.parse_no_panic_branch'], cases=c12_cases, anchors=['core/src/fen.rs', 'board/src/board.rs']),
+    'C13': dict(modules=[], theorems=[], cases=c13_cases, anchors=BOARD_ANCHORS),
+    'C14': dict(modules=[], theorems=[], cases=c14_cases, anchors=BOARD_ANCHORS),
     'C15': dict(modules=['Inkayaku.Props.C15'],
                 theorems=['Inkayaku.C15.tokenize_pad', 'Inkayaku.C15.ucimove_roundtrip', 'Inkayaku.C15.parse_render_simple',
                           'Inkayaku.C15.parse_render_position', 'Inkayaku.C15.parse_render_go', 'Inkayaku.C15.parse_render',
@@ -761,6 +904,10 @@ PROPS = {
                           'Inkayaku.C17.fuel_adequate'],
                 cases=c17_cases, anchors=['pgn/src/reader.rs', 'pgn_test/src/main.rs', 'board/src/board.rs'],
                 assumptions=['std::io::Read contract: read returns 0 only at end of input']),
+    'C19': dict(modules=['Inkayaku.Props.C19'], theorems=['Inkayaku.Props.C19.schema_names_documented', 'Inkayaku.Props.C19.perf_keys_documented', 'Inkayaku.Props.C19.moves_split', 'Inkayaku.Props.C19.moves_split_uci', 'Inkayaku.Props.C19.decode_encode', 'Inkayaku.Props.C19.wf_generated', 'Inkayaku.Props.C19.parse_render_json', 'Inkayaku.Props.C19.decode_text_roundtrip'],
+                cases=c19_cases, needs_lichess=True,
+                anchors=['lichess_api/src/api/bot_game_state_response.rs', 'lichess_api/src/api/bot_event_response.rs', 'lichess_api/src/api/response.rs'],
+                assumptions=['serde / serde_json semantics as modelled (libraries trusted)', 'documented wire names as written in Spec/LichessDoc.lean']),
     'C18': dict(modules=['Inkayaku.Props.C18'],
                 theorems=['Inkayaku.C18.refines', 'Inkayaku.C18.inv_reach', 'Inkayaku.C18.len_le_cap', 'Inkayaku.C18.len_eq_card',
                           'Inkayaku.C18.get_put_same', 'Inkayaku.C18.get_put_other', 'Inkayaku.C18.evicts_oldest',
